@@ -81,6 +81,16 @@ def gen_spec(rng, fmt=None, max_elements=5, max_shells=8, max_l=7, max_prims=10,
                 exps_v = sorted((_draw_exp(rng) for _ in range(K)), reverse=True)
                 ok = True
                 same_as_prev = None
+                if not shells and elements and rng.random() < 0.2:
+                    # the first shell of an element repeats the last shell of the previous element
+                    # (same l, same exponent tokens): legal, and nothing may leak across elements
+                    prev_el = elements[-1]["shells"][-1]
+                    same_as_prev = list(prev_el["exps"])
+                    K = len(same_as_prev)
+                    if len(prev_el["l"]) == 1:
+                        sp, ls = False, list(prev_el["l"])
+                        M = rng.randint(1, max_cols) if rng.random() < 0.5 else 1
+                    break
                 if shells and rng.random() < 0.12:
                     # the next shell re-uses the very exponent tokens of the previous one (as 6-31G-like sets
                     # do for s and p); identical text, so the Gaussian94 merge rule is unambiguous
